@@ -69,7 +69,7 @@ Failing(ev) ==
       eqs == SeqToSet(ev.eq)
       eqr == SeqToSet(ev.eq_rev)
       hs  == SeqToSet(ev.hash_eq)
-      prev == 1..(l - 1)
+      prev == { j \in 1..(l - 1) : Evs[j].op # "law" /\ Evs[j].exc = "" }     \* registers that hold a value
   IN
   (IF ev.op \in {"and", "or", "not"} /\ d # ed THEN {<<"C01", "den">>} ELSE {}) \cup
   (IF ~Canonical(ev.shape) THEN {<<"C05", "canonical">>} ELSE {}) \cup
@@ -81,8 +81,9 @@ Failing(ev) ==
   (IF ~(eqs \subseteq hs) THEN {<<"C13", "eq_implies_hash">>} ELSE {}) \cup
   (IF \E i \in eqs, j \in prev : j # i /\ Related(i, j) /\ j \notin eqs
       THEN {<<"C13", "eq_transitive">>} ELSE {}) \cup
-  (IF ev.cand # et THEN {<<"C04", "in_table">>} ELSE {}) \cup
-  (IF ev.cand_contains # et THEN {<<"C04", "contains_table">>} ELSE {}) \cup
+  (IF ev.op # "reparse" /\ ev.cand # et THEN {<<"C04", "in_table">>} ELSE {}) \cup
+  (IF ev.op # "reparse" /\ ev.cand_contains # et THEN {<<"C04", "contains_table">>} ELSE {}) \cup
+  (IF ev.op = "reparse" /\ ev.cand # et THEN {<<"C06", "roundtrip_membership">>} ELSE {}) \cup
   (IF ev.op = "reparse" /\ (d # ed \/ ~ev.eq_orig) THEN {<<"C06", "roundtrip">>} ELSE {}) \cup
   (IF ev.op = "law" /\ ~(ev.law_eq /\ ev.law_eq_rev) THEN {<<"C14", ev.law>>} ELSE {}) \cup
   (IF ev.op = "law" /\ ~ev.law_hash THEN {<<"C13", "law_hash">>} ELSE {})
